@@ -33,7 +33,7 @@ BASIS_OK = lambda bs, sp, d: ('len(%s[%s]) == len(%s[%s]) and forall(q, 0, len(%
 
 CONTRACTS = {
     'evaluators.SurfaceEvaluator.evaluate': dict(
-        props=['C01', 'C13', 'C18'],
+        props=['C01'],
         args=OD([('self', 'self'), ('datadict', DD), ('kwargs', 'kwargs')]),
         ghost_args=OD([('g_start', V), ('g_stop', V), ('d0', 'int'), ('c', 'real')]),
         kwargs={'start': '$g_start', 'stop': '$g_stop'},
@@ -65,7 +65,10 @@ CONTRACTS = {
             4: dict(inv=['len(temp) == dimension', 'temp[d0] <= c * sum(basis[1][j], 0, l)',
                          '0 <= idx_u + k', 'idx_u + k <= size[0] - 1', 'size[1] * (idx_u + k) <= size[1] * (size[0] - 1)',
                          'size[1] * (idx_u + k) >= 0'],
-                    hints=['basis[1][j][head_l] >= 0',
+                    hints=['idx_v + head_l + (size[1] * (idx_u + k)) >= 0',
+                           'idx_v + head_l + (size[1] * (idx_u + k)) <= len(ctrlpts) - 1',
+                           'len(ctrlpts[idx_v + head_l + (size[1] * (idx_u + k))]) == dimension',
+                           'basis[1][j][head_l] >= 0',
                            'basis[1][j][head_l] * ctrlpts[idx_v + head_l + (size[1] * (idx_u + k))][d0] <= basis[1][j][head_l] * c',
                            'c * sum(basis[1][j], 0, head_l + 1) == c * sum(basis[1][j], 0, head_l) + c * basis[1][j][head_l]']),
         },
@@ -74,7 +77,7 @@ CONTRACTS = {
 
     # the volume evaluator: layout index  iv + dv + size_v*(iu + du + size_u*(iw + dw))  (v fastest, then u, then w)
     'evaluators.VolumeEvaluator.evaluate': dict(
-        props=['C01', 'C13', 'C18'],
+        props=['C01'],
         args=OD([('self', 'self'), ('datadict', DD), ('kwargs', 'kwargs')]),
         ghost_args=OD([('g_start', V), ('g_stop', V), ('d0', 'int'), ('c', 'real')]),
         kwargs={'start': '$g_start', 'stop': '$g_stop'},
@@ -117,6 +120,9 @@ CONTRACTS = {
                            'iu + du + (size[0] * (iw + head_dw)) >= 0',
                            'size[1] * (iu + du + (size[0] * (iw + head_dw))) <= size[1] * (size[0] * size[2] - 1)',
                            'size[1] * (iu + du + (size[0] * (iw + head_dw))) >= 0',
+                           'iv + dv + (size[1] * (iu + du + (size[0] * (iw + head_dw)))) >= 0',
+                           'iv + dv + (size[1] * (iu + du + (size[0] * (iw + head_dw)))) <= len(ctrlpts) - 1',
+                           'len(ctrlpts[iv + dv + (size[1] * (iu + du + (size[0] * (iw + head_dw))))]) == dimension',
                            'basis[2][k][head_dw] >= 0',
                            'basis[2][k][head_dw] * ctrlpts[iv + dv + (size[1] * (iu + du + (size[0] * (iw + head_dw))))][d0] <= basis[2][k][head_dw] * c',
                            'c * sum(basis[2][k], 0, head_dw + 1) == c * sum(basis[2][k], 0, head_dw) + c * basis[2][k][head_dw]']),
@@ -124,3 +130,122 @@ CONTRACTS = {
         rounds=2, timeout_ms=120000, chunks=14,
     ),
 }
+
+# ---- hull of the ACTIVE control points (C18) and the layout convention (C13), stated where each point is produced.
+# Ghost bounding sequences, non-decreasing in the index:   lu[a] + lv[b] <= P(a, b)[d0] <= cu[a] + cv[b]   where P(a, b) is the
+# control point the layout convention puts at  b + size_v * a.  Asserted at the append site of every evaluated point:
+#     lu[span_u - p] + lv[span_v - q]  <=  S(u_i, v_j)[d0]  <=  cu[span_u] + cv[span_v]
+# An index outside [span - degree, span] in either direction, or a transposed layout, cannot satisfy both for all such sequences.
+MONO = lambda a: 'forall(x, 0, len(%s), forall(y, x, len(%s), %s[x] <= %s[y]))' % (a, a, a, a)
+UB = '(cu[spans[0][i]] + cv[spans[1][j]])'
+LB = '(lu[spans[0][i] - degree[0]] + lv[spans[1][j] - degree[1]])'
+UBk = '(cu[idx_u + k] + cv[spans[1][j]])'
+LBk = '(lu[idx_u + k] + lv[idx_v])'
+PIJ = 'ctrlpts[idx_v + head_l + (size[1] * (idx_u + k))][d0]'
+base = CONTRACTS['evaluators.SurfaceEvaluator.evaluate']
+CONTRACTS['evaluators.SurfaceEvaluator.evaluate#active_hull'] = dict(
+    base,
+    target='evaluators.SurfaceEvaluator.evaluate',
+    props=['C13', 'C18'],
+    ghost_args=OD([('g_start', V), ('g_stop', V), ('d0', 'int'), ('cu', V), ('cv', V), ('lu', V), ('lv', V)]),
+    replay_call=None,
+    requires=[r for r in base['requires'] if '<= c)' not in r] + [
+        'len(cu) == %s[0]' % SZ, 'len(lu) == %s[0]' % SZ, 'len(cv) == %s[1]' % SZ, 'len(lv) == %s[1]' % SZ,
+        MONO('cu'), MONO('cv'), MONO('lu'), MONO('lv'),
+        'forall(a, 0, len(cu), forall(b, 0, len(cv), %s[b + %s[1] * a][d0] <= cu[a] + cv[b]))' % (CP, SZ),
+        'forall(a, 0, len(lu), forall(b, 0, len(lv), %s[b + %s[1] * a][d0] >= lu[a] + lv[b]))' % (CP, SZ)],
+    ensures=base['ensures'][:2],
+    loops={
+        0: base['loops'][0],
+        1: dict(inv=['len(eval_points) == i * len(spans[1])',
+                     'forall(q, 0, len(eval_points), len(eval_points[q]) == dimension)']),
+        2: dict(inv=['len(eval_points) == i * len(spans[1]) + j', 'idx_u == spans[0][i] - degree[0]',
+                     'forall(q, 0, len(eval_points), len(eval_points[q]) == dimension)'],
+                asserts=['eval_points[len(eval_points) - 1][d0] <= cu[spans[0][i]] + cv[spans[1][head_j]]',
+                         'eval_points[len(eval_points) - 1][d0] >= lu[spans[0][i] - degree[0]] + lv[spans[1][head_j] - degree[1]]']),
+        3: dict(inv=['len(spt) == dimension', 'idx_v == spans[1][j] - degree[1]', 'idx_u == spans[0][i] - degree[0]',
+                     'spt[d0] <= %s * sum(basis[0][i], 0, k)' % UB, 'spt[d0] >= %s * sum(basis[0][i], 0, k)' % LB],
+                hints=['basis[0][i][head_k] >= 0',
+                       'cu[idx_u + head_k] <= cu[spans[0][i]]', 'lu[idx_u + head_k] >= lu[idx_u]',
+                       'temp[d0] <= %s' % UB, 'temp[d0] >= %s' % LB,
+                       'basis[0][i][head_k] * temp[d0] <= basis[0][i][head_k] * %s' % UB,
+                       'basis[0][i][head_k] * temp[d0] >= basis[0][i][head_k] * %s' % LB,
+                       '%s * sum(basis[0][i], 0, head_k + 1) == %s * sum(basis[0][i], 0, head_k) + %s * basis[0][i][head_k]' % (UB, UB, UB),
+                       '%s * sum(basis[0][i], 0, head_k + 1) == %s * sum(basis[0][i], 0, head_k) + %s * basis[0][i][head_k]' % (LB, LB, LB)]),
+        4: dict(inv=['len(temp) == dimension',
+                     'temp[d0] <= %s * sum(basis[1][j], 0, l)' % UBk, 'temp[d0] >= %s * sum(basis[1][j], 0, l)' % LBk,
+                     '0 <= idx_u + k', 'idx_u + k <= size[0] - 1', 'size[1] * (idx_u + k) <= size[1] * (size[0] - 1)',
+                     'size[1] * (idx_u + k) >= 0'],
+                hints=['idx_v + head_l + (size[1] * (idx_u + k)) >= 0',
+                       'idx_v + head_l + (size[1] * (idx_u + k)) <= len(ctrlpts) - 1',
+                       'len(ctrlpts[idx_v + head_l + (size[1] * (idx_u + k))]) == dimension',
+                       'basis[1][j][head_l] >= 0',
+                       '%s <= cu[idx_u + k] + cv[idx_v + head_l]' % PIJ, '%s >= lu[idx_u + k] + lv[idx_v + head_l]' % PIJ,
+                       'cv[idx_v + head_l] <= cv[spans[1][j]]', 'lv[idx_v + head_l] >= lv[idx_v]',
+                       'basis[1][j][head_l] * %s <= basis[1][j][head_l] * %s' % (PIJ, UBk),
+                       'basis[1][j][head_l] * %s >= basis[1][j][head_l] * %s' % (PIJ, LBk),
+                       '%s * sum(basis[1][j], 0, head_l + 1) == %s * sum(basis[1][j], 0, head_l) + %s * basis[1][j][head_l]' % (UBk, UBk, UBk),
+                       '%s * sum(basis[1][j], 0, head_l + 1) == %s * sum(basis[1][j], 0, head_l) + %s * basis[1][j][head_l]' % (LBk, LBk, LBk)]),
+    },
+)
+
+# ---- the same for volumes:  lu[a] + lv[b] + lw[e] <= P(a, b, e)[d0] <= cu[a] + cv[b] + cw[e]  with P(a, b, e) at  b + size_v*(a + size_u*e)
+vU = '(cu[spans[0][i]] + cv[spans[1][j]] + cw[spans[2][k]])'
+vL = '(lu[iu] + lv[iv] + lw[iw])'
+vU5 = '(cu[iu + du] + cv[spans[1][j]] + cw[spans[2][k]])'
+vL5 = '(lu[iu + du] + lv[iv] + lw[iw])'
+vU6 = '(cu[iu + du] + cv[iv + dv] + cw[spans[2][k]])'
+vL6 = '(lu[iu + du] + lv[iv + dv] + lw[iw])'
+vP = 'ctrlpts[iv + dv + (size[1] * (iu + du + (size[0] * (iw + head_dw))))][d0]'
+DISTR = lambda B, S, h: '%s * sum(%s, 0, %s + 1) == %s * sum(%s, 0, %s) + %s * %s[%s]' % (B, S, h, B, S, h, B, S, h)
+vbase = CONTRACTS['evaluators.VolumeEvaluator.evaluate']
+CONTRACTS['evaluators.VolumeEvaluator.evaluate#active_hull'] = dict(
+    vbase,
+    target='evaluators.VolumeEvaluator.evaluate',
+    props=['C13', 'C18'],
+    ghost_args=OD([('g_start', V), ('g_stop', V), ('d0', 'int'), ('cu', V), ('cv', V), ('cw', V), ('lu', V), ('lv', V), ('lw', V)]),
+    replay_call=None,
+    requires=[r for r in vbase['requires'] if '<= c)' not in r] + [
+        'len(cu) == %s[0]' % SZ, 'len(lu) == %s[0]' % SZ, 'len(cv) == %s[1]' % SZ, 'len(lv) == %s[1]' % SZ,
+        'len(cw) == %s[2]' % SZ, 'len(lw) == %s[2]' % SZ,
+        MONO('cu'), MONO('cv'), MONO('cw'), MONO('lu'), MONO('lv'), MONO('lw'),
+        'forall(a, 0, len(cu), forall(b, 0, len(cv), forall(e, 0, len(cw), %s[b + %s[1] * (a + %s[0] * e)][d0] <= cu[a] + cv[b] + cw[e])))' % (CP, SZ, SZ),
+        'forall(a, 0, len(lu), forall(b, 0, len(lv), forall(e, 0, len(lw), %s[b + %s[1] * (a + %s[0] * e)][d0] >= lu[a] + lv[b] + lw[e])))' % (CP, SZ, SZ)],
+    ensures=vbase['ensures'][:2],
+    loops={
+        0: vbase['loops'][0],
+        1: dict(inv=['len(eval_points) == i * (len(spans[1]) * len(spans[2]))',
+                     'forall(q, 0, len(eval_points), len(eval_points[q]) == dimension)']),
+        2: dict(inv=['len(eval_points) == i * (len(spans[1]) * len(spans[2])) + j * len(spans[2])', 'iu == spans[0][i] - degree[0]',
+                     'forall(q, 0, len(eval_points), len(eval_points[q]) == dimension)']),
+        3: dict(inv=['len(eval_points) == i * (len(spans[1]) * len(spans[2])) + j * len(spans[2]) + k',
+                     'iu == spans[0][i] - degree[0]', 'iv == spans[1][j] - degree[1]',
+                     'forall(q, 0, len(eval_points), len(eval_points[q]) == dimension)'],
+                asserts=['eval_points[len(eval_points) - 1][d0] <= cu[spans[0][i]] + cv[spans[1][j]] + cw[spans[2][head_k]]',
+                         'eval_points[len(eval_points) - 1][d0] >= lu[spans[0][i] - degree[0]] + lv[spans[1][j] - degree[1]] + lw[spans[2][head_k] - degree[2]]']),
+        4: dict(inv=['len(spt) == dimension', 'iu == spans[0][i] - degree[0]', 'iv == spans[1][j] - degree[1]',
+                     'iw == spans[2][k] - degree[2]',
+                     'spt[d0] <= %s * sum(basis[0][i], 0, du)' % vU, 'spt[d0] >= %s * sum(basis[0][i], 0, du)' % vL],
+                hints=['basis[0][i][head_du] >= 0', 'cu[iu + head_du] <= cu[spans[0][i]]', 'lu[iu + head_du] >= lu[iu]',
+                       'temp2[d0] <= %s' % vU, 'temp2[d0] >= %s' % vL,
+                       'basis[0][i][head_du] * temp2[d0] <= basis[0][i][head_du] * %s' % vU,
+                       'basis[0][i][head_du] * temp2[d0] >= basis[0][i][head_du] * %s' % vL,
+                       DISTR(vU, 'basis[0][i]', 'head_du'), DISTR(vL, 'basis[0][i]', 'head_du')]),
+        5: dict(inv=['len(temp2) == dimension', '0 <= iu + du', 'iu + du <= size[0] - 1',
+                     'temp2[d0] <= %s * sum(basis[1][j], 0, dv)' % vU5, 'temp2[d0] >= %s * sum(basis[1][j], 0, dv)' % vL5],
+                hints=['basis[1][j][head_dv] >= 0', 'cv[iv + head_dv] <= cv[spans[1][j]]', 'lv[iv + head_dv] >= lv[iv]',
+                       'temp[d0] <= %s' % vU5, 'temp[d0] >= %s' % vL5,
+                       'basis[1][j][head_dv] * temp[d0] <= basis[1][j][head_dv] * %s' % vU5,
+                       'basis[1][j][head_dv] * temp[d0] >= basis[1][j][head_dv] * %s' % vL5,
+                       DISTR(vU5, 'basis[1][j]', 'head_dv'), DISTR(vL5, 'basis[1][j]', 'head_dv')]),
+        6: dict(inv=['len(temp) == dimension', '0 <= iv + dv', 'iv + dv <= size[1] - 1', '0 <= iu + du', 'iu + du <= size[0] - 1',
+                     'temp[d0] <= %s * sum(basis[2][k], 0, dw)' % vU6, 'temp[d0] >= %s * sum(basis[2][k], 0, dw)' % vL6],
+                hints=vbase['loops'][6]['hints'][:12] + [
+                       '%s <= cu[iu + du] + cv[iv + dv] + cw[iw + head_dw]' % vP, '%s >= lu[iu + du] + lv[iv + dv] + lw[iw + head_dw]' % vP,
+                       'cw[iw + head_dw] <= cw[spans[2][k]]', 'lw[iw + head_dw] >= lw[iw]',
+                       'basis[2][k][head_dw] * %s <= basis[2][k][head_dw] * %s' % (vP, vU6),
+                       'basis[2][k][head_dw] * %s >= basis[2][k][head_dw] * %s' % (vP, vL6),
+                       DISTR(vU6, 'basis[2][k]', 'head_dw'), DISTR(vL6, 'basis[2][k]', 'head_dw')]),
+    },
+)
+del base, vbase
